@@ -175,6 +175,9 @@ class cpr {
             }
         }
 
+#ifdef AMGCL_VERIF
+    friend struct ::amgcl::verif::access;
+#endif
     private:
         size_t n, np;
 
